@@ -605,6 +605,7 @@ type runner struct {
 	served            chan struct{} // closed when the current Serve call has returned
 	settleTimeouts    int
 	rdvOK, rdvTimeout int32
+	heldOK            int32
 	connDone          []chan struct{}
 	dur               time.Duration // the configured query event duration
 	notAtOnce         bool
@@ -1841,6 +1842,169 @@ func (r *runner) runHistoryNats() {
 	fmt.Fprintln(os.Stderr, "history-nats:", desc)
 }
 
+// runHeldNats: the group's worker is busy across the expiry.  Real nats.go connection to an embedded
+// nats-server (the scripted Conn cannot see Drain).  A callback of the query event's group is held by the
+// harness; while it is held the query event expires: its subscription must go away all the same (client
+// subscription count back at the baseline, polled - no timing bound other than a 3 s give-up), a request
+// published after that must not even reach the connection, and once the worker is released every request
+// received while the query event was active gets exactly one response and the callback one nil call.
+func (r *runner) runHeldNats() {
+	atomic.StoreInt32(&r.passive, 1)
+	srv, err := server.NewServer(&server.Options{Host: "127.0.0.1", Port: -1, NoLog: true, NoSigs: true})
+	if err != nil {
+		r.skipped = "embedded nats-server: " + err.Error()
+		return
+	}
+	go srv.Start()
+	defer srv.Shutdown()
+	if !srv.ReadyForConnections(10 * time.Second) {
+		r.skipped = "embedded nats-server not ready (no loopback TCP?)"
+		return
+	}
+	nc, err := nats.Connect(srv.ClientURL())
+	if err != nil {
+		r.skipped = "connect to the embedded nats-server: " + err.Error()
+		return
+	}
+	cl, err := nats.Connect(srv.ClientURL())
+	if err != nil {
+		r.skipped = "connect to the embedded nats-server: " + err.Error()
+		return
+	}
+	defer cl.Close()
+	rng := NewRng(r.sc.Seed)
+	r.s = r.newService()
+	ready := make(chan struct{})
+	r.s.SetOnServe(func(*res.Service) { close(ready) })
+	go r.s.Serve(nc)
+	select {
+	case <-ready:
+	case <-time.After(5 * time.Second):
+		r.violation("harness", "service did not start on the embedded nats-server")
+		return
+	}
+	subjCh := make(chan string, 4)
+	cl.Subscribe("event.test.>", func(m *nats.Msg) {
+		var p struct {
+			Subject string `json:"subject"`
+		}
+		if strings.HasSuffix(m.Subject, ".query") && json.Unmarshal(m.Data, &p) == nil && p.Subject != "" {
+			subjCh <- p.Subject
+		}
+	})
+	cl.Request("test.warmup.nobody", nil, 5*time.Millisecond)
+	cl.Flush()
+	nc.Flush()
+	rid := fmt.Sprintf("test.%s.%d", rng.Pick([]string{"m", "c", "g", "u"}), 1+rng.Intn(3))
+	baseSubs := nc.NumSubscriptions()
+	var nils, reqCbs int32
+	created := make(chan struct{})
+	if err := r.s.With(rid, func(rs res.Resource) {
+		rs.QueryEvent(func(qr res.QueryRequest) {
+			if qr == nil {
+				atomic.AddInt32(&nils, 1)
+				return
+			}
+			atomic.AddInt32(&reqCbs, 1)
+		})
+		close(created)
+	}); err != nil {
+		r.violation("harness", err.Error())
+		return
+	}
+	t0 := time.Now()
+	<-created
+	var subj string
+	select {
+	case subj = <-subjCh:
+	case <-time.After(3 * time.Second):
+		r.violation("harness", "no query event seen on the embedded nats-server")
+		return
+	}
+	what := fmt.Sprintf("query event on %s, duration %v, a callback of its group held across the expiry", rid, queryDuration)
+	// hold the worker of the query event's group
+	entered, letGo := make(chan struct{}), make(chan struct{})
+	r.s.With(rid, func(res.Resource) { close(entered); <-letGo })
+	select {
+	case <-entered:
+	case <-time.After(3 * time.Second):
+		r.violation("harness", "the holding callback did not start")
+		close(letGo)
+		return
+	}
+	// requests sent while the query event is (very likely) still active: answered once the worker is free, if received in time
+	nEarly := rng.Intn(3)
+	type pend struct {
+		sub *nats.Subscription
+		n   int
+	}
+	var early []pend
+	for i := 0; i < nEarly && time.Since(t0) < queryDuration/2; i++ {
+		inbox := nats.NewInbox()
+		sb, _ := cl.SubscribeSync(inbox)
+		cl.PublishRequest(subj, inbox, []byte(fmt.Sprintf(`{"query":"e=%d"}`, i)))
+		early = append(early, pend{sub: sb})
+	}
+	cl.Flush()
+	// the expiry: the subscription must be released although the group's worker is busy
+	released := false
+	for dl := t0.Add(queryDuration + 3*time.Second); time.Now().Before(dl); time.Sleep(time.Millisecond) {
+		if nc.NumSubscriptions() <= baseSubs {
+			released = true
+			break
+		}
+	}
+	if !released {
+		r.violation("leak-held", fmt.Sprintf("the subscription of an expired query event is still there %v after its creation while the group's worker is busy (client subscriptions %d, baseline %d): %s",
+			time.Since(t0).Round(time.Millisecond), nc.NumSubscriptions(), baseSubs, what))
+	}
+	// a request published now, the worker still held: it must not be delivered to the service's connection any more
+	nc.Flush()
+	in0 := nc.Stats().InMsgs
+	lateInbox := nats.NewInbox()
+	lateSub, _ := cl.SubscribeSync(lateInbox)
+	cl.PublishRequest(subj, lateInbox, []byte(`{"query":"late"}`))
+	cl.Flush()
+	time.Sleep(20 * time.Millisecond)
+	nc.Flush()
+	delivered := nc.Stats().InMsgs - in0
+	close(letGo)
+	for dl := time.Now().Add(5 * time.Second); atomic.LoadInt32(&nils) < 1 && time.Now().Before(dl); time.Sleep(time.Millisecond) {
+	}
+	time.Sleep(5 * time.Millisecond)
+	nc.Flush()
+	cl.Flush()
+	lateAnswered := false
+	if m, err := lateSub.NextMsg(100 * time.Millisecond); err == nil && len(m.Data) > 0 {
+		lateAnswered = true
+	}
+	if delivered > 0 && !lateAnswered {
+		r.violation("lost-request", "a query request published after the expiry was still delivered to the query event's subscription and never answered: "+what)
+	}
+	answered := 0
+	for _, p := range early {
+		if m, err := p.sub.NextMsg(500 * time.Millisecond); err == nil && len(m.Data) > 0 {
+			answered++
+			if _, err := p.sub.NextMsg(20 * time.Millisecond); err == nil {
+				r.violation("double-response", "two responses to one query request: "+what)
+			}
+		}
+	}
+	if int(atomic.LoadInt32(&reqCbs)) != answered+btoi(lateAnswered) {
+		r.violation("lost-request", fmt.Sprintf("%d query request callbacks ran but %d responses arrived: %s", reqCbs, answered+btoi(lateAnswered), what))
+	}
+	if c := atomic.LoadInt32(&nils); c != 1 {
+		r.violation("nil-count", fmt.Sprintf("%d nil calls: %s", c, what))
+	}
+	for dl := time.Now().Add(3 * time.Second); time.Now().Before(dl) && (nc.NumSubscriptions() > baseSubs || listenerGoroutines() > 0); time.Sleep(2 * time.Millisecond) {
+	}
+	if nc.NumSubscriptions() > baseSubs || listenerGoroutines() > 0 {
+		r.violation("leak", fmt.Sprintf("after the worker was released: client subscriptions %d (baseline %d), listener goroutines %d: %s", nc.NumSubscriptions(), baseSubs, listenerGoroutines(), what))
+	}
+	atomic.AddInt32(&r.heldOK, 1)
+	r.shutdown()
+}
+
 // ---------- log -> cases ----------
 
 type qconv struct {
@@ -2194,6 +2358,8 @@ func runScenario(sc scenario) result {
 			r.runHistory()
 		case "history-nats":
 			r.runHistoryNats()
+		case "held-nats":
+			r.runHeldNats()
 		case "racy":
 			r.runRacy()
 		case "restart":
@@ -2204,7 +2370,7 @@ func runScenario(sc scenario) result {
 			r.runDirected()
 		}
 	}()
-	if !strings.HasPrefix(sc.Kind, "history") {
+	if !strings.HasPrefix(sc.Kind, "history") && sc.Kind != "held-nats" {
 		out.Cases = r.convert()
 	}
 	out.Impl = r.impl
@@ -2231,7 +2397,12 @@ func runScenario(sc scenario) result {
 	if len(r.staleTo) > 0 {
 		d["stale-request-delivered"] += len(r.staleTo)
 	}
-	if r.skipped != "" {
+	if n := atomic.LoadInt32(&r.heldOK); n > 0 {
+		d["group-worker-held-across-expiry-completed"] += int(n)
+	}
+	if r.skipped != "" && sc.Kind == "held-nats" {
+		d["held-nats-skipped"]++
+	} else if r.skipped != "" {
 		d["history-nats-skipped"]++
 		fmt.Fprintln(os.Stderr, "history-nats skipped:", r.skipped)
 	}
@@ -2423,6 +2594,13 @@ var raceSubset bool
 func generate(o Opts) []scenario {
 	rng := NewRng(o.Seed)
 	nDir, nRacy, nShut, hist, nRestart, nPar := 300, 120, 30, 200, 60, 40
+	nHeld := 8
+	if o.Tier == "thorough" {
+		nHeld = 80
+	}
+	if raceSubset {
+		nHeld = 2
+	}
 	if o.Tier == "thorough" {
 		nDir, nRacy, nShut, hist, nRestart, nPar = 8000, 3000, 800, 2000, 1500, 1000
 	}
@@ -2522,12 +2700,15 @@ func generate(o Opts) []scenario {
 		sc.Batches = []int{n}
 		scs = append(scs, sc)
 	}
+	for i := 0; i < nHeld; i++ {
+		scs = append(scs, scenario{Kind: "held-nats", Workers: 4, Seed: rng.Next() % 1000000})
+	}
 	if hist > 0 {
 		scs = append(scs, scenario{Kind: "history", Workers: 4, History: hist, Seed: rng.Next() % 1000000})
 		scs = append(scs, scenario{Kind: "history-nats", Workers: 4, History: hist, Seed: rng.Next() % 1000000})
 	}
 	for i := range scs {
-		if !strings.HasPrefix(scs[i].Kind, "history") && rng.Chance(30) {
+		if !strings.HasPrefix(scs[i].Kind, "history") && scs[i].Kind != "held-nats" && rng.Chance(30) {
 			// several query events with a short positive duration would reach the gate from several timer goroutines in
 			// an order the director cannot know: those durations only where one query event is alive at a time
 			if scs[i].Kind == "racy" {
@@ -2694,7 +2875,8 @@ func main() {
 			"events expiring inside the restarted service: all subjects over the whole history pairwise distinct, nothing answers a stale request), "+
 			"query event durations 25 ms, 8 ms, 1 ms, 0 and negative (expired at once; the expiry callback starts no earlier than the configured duration "+
 			"and no later than 1 s after it could), callback panics observed (a panic before any reply must be answered with an error), "+
-			"the service's reconnect/disconnect handlers and ResetAll/Reset/TokenReset called while query events are active (no expiry before the "+
+			"a callback of the query event's group held across the expiry on a real nats.go connection (the subscription must be released "+
+			"all the same, later requests not delivered, pending ones answered after the release), the service's reconnect/disconnect handlers and ResetAll/Reset/TokenReset called while query events are active (no expiry before the "+
 			"configured duration, requests accepted within the duration answered), Parallel resources with 2-4 request callbacks of one query event made to overlap (they wait for each other, then re-read Query()/ParseQuery()), "+
 			"model/collection/untyped/grouped/Parallel resources (Parallel excluded from the ordering claim), query events created "+
 			"with Service.With and from call handlers; two histories of 200 (quick) / 2,000 (thorough) expired query events - scripted Conn: goroutine "+
